@@ -9,6 +9,8 @@ import itertools
 
 from hypothesis import strategies as st
 
+from vlib import gen
+
 from vlib import detsched as D
 from vlib.core import Info, Sub, Violation, fail
 
@@ -474,7 +476,7 @@ def dfs_oracle(case):
     return Info(multi=infos)
 
 
-ops = st.one_of(
+ops = gen.pick(
     st.tuples(st.just("cb"), st.sampled_from(["ok", "ok", "raise", "arity", "same", "same", "flex-typeerror", "flex-ok", "method", "method", "callable-object", "partial", "partial-raise", "object-raise"])),
     st.just(("done",)),
     st.tuples(st.just("result"), st.sampled_from([None, 0.5, 2.0, 0, 0.0, -1])),
